@@ -24,7 +24,7 @@ func vhReset() {
 	vos.Reset()
 	vclock.Reset()
 	vrand.Reset()
-	vos.Mkdir(vhRoot, vclock.Last())
+	vos.PutDir(vhRoot, vclock.Last())
 }
 
 func vhConf(st config.Store) config.Config {
